@@ -84,3 +84,8 @@ add('C07', 'exploration', 'slot-by-slot dispatch monitor over generated interfac
     'For generated interface types every subset (up to 3, and the full set) of methods is mocked on a nil-start and an implementation-start variable; every slot is called through the variable (exact arguments/results for mocked slots, "method not implements" panic otherwise), the other variable and (after Reset) the variable\'s own two words are compared with their pre-mock values; in half of the cases the builder is dropped, collections are forced and a finalizer attached to the object whose address each stub embeds must not fire while the stub is installed. Interface types are generated per seed (sampled); subsets are enumerated.',
     'GC-reachability is decided by finalizers (definitive witness that the collector considers the object garbage), not by waiting for reuse; collections are disabled between installing a stub and arming its monitor.',
     'DESIGN.md 2 C07')
+
+add('C01', 'exploration', 'transcript monitor (bit-exact caller-side vs replacement-side encodings) over generated signatures x call forms x value tuples x GC / stack-growth regimes, plus finalizer-based GC-reachability monitor on the replacement',
+    'Corpora of generated signatures (0-20 parameters, 0-6 results over 35 types, variadic tails; one corpus from seed 0 and one from VERIF_SEED, never committed) are compiled per run; every target is mocked by a typed closure and by stubbed returns and called through 7 call forms with boundary-value tuples, between forced collections and on fresh goroutines under deep recursion; the replacement logs what it receives and the monitor compares encodings, hit counts of the original body and results; the closure whose address the entry jump embeds carries a finalizer that must not fire. Signature/value space sampled; the evidence lists the ABI classes reached.',
+    'Values are compared by canonical encoding captured inside the call; results of defer/go forms are discarded by Go and not compared.',
+    'DESIGN.md 2 C01')
